@@ -55,9 +55,12 @@ enum Site {
     SITE_DUAL_TICK       = 29,  // dual walk: progress tick (a = count)
     SITE_INDEX_PENDING   = 30,  // assignIndices worker: pending-- on p; a = 1 if it observed 0
     SITE_INDEX_LEAF      = 31,  // assignIndices worker: leaf p processed
-    SITE_RESET_POOL      = 32,  // ObjectPool::reset: a = workers after the clamp, b = blocks in this pool, p = pool
+    SITE_RESET_POOL      = 32,  // ObjectPool::reset: a = workers after the clamp, b = (allocated blocks << 32) | fresh blocks, p = pool
     SITE_RESET_ANNOUNCE  = 33,  // Root::reset: a = announced num_blocks, b = 1 if a progress handler is set
     SITE_PROGRESS        = 34,  // ProgressHandler: a = event (PROGRESS_*), b = payload, p = handler
+    SITE_POOL_LOOP       = 35,  // worker pool: top of the loop body (every iteration, before the pop)
+    SITE_DUAL_LOOP       = 36,  // dual walk: top of the loop body
+    SITE_INDEX_LOOP      = 37,  // assignIndices worker: top of the loop body
 };
 
 /*  Phase ids for SITE_RENDER_PHASE */
